@@ -83,12 +83,73 @@ type c17Env struct {
 }
 
 type c17ResScn struct {
-	Kind   string    `json:"kind"` // "resolve"
-	Upg    bool      `json:"upg"`
-	Lock   []c17Pkg  `json:"lock"`
-	Self   c17Pkg    `json:"self"`
-	Env    *c17Env   `json:"env,omitempty"`
+	Kind string   `json:"kind"` // "resolve"
+	Upg  bool     `json:"upg"`
+	Lock []c17Pkg `json:"lock"`
+	Self c17Pkg   `json:"self"`
+	Env  *c17Env  `json:"env,omitempty"`
+	// More: further Resolve calls of the SAME PackageDependencyManager (it is built once per
+	// revision controller) on the same API server, one after the other.
+	More []c17ResMore `json:"more,omitempty"`
+	// Absent: there is no Lock object (Lock must be empty). Fault: call number K of the first
+	// Resolve (its Get / Create / Update calls on the Lock, 0-based) comes back with an error of
+	// that class instead of being carried out.
+	Absent bool      `json:"absent,omitempty"`
+	Fault  *c17Fault `json:"fault,omitempty"`
 	Oracle c17Oracle `json:"oracle"`
+}
+
+type c17Fault struct {
+	K     int    `json:"k"`
+	Class string `json:"class"`
+}
+
+// c17FaultClient counts the calls of one Resolve and makes call number fault.K fail; what the
+// other writers do right before that call still happens (simstore's Before hook is run by hand).
+type c17FaultClient struct {
+	*Store
+	k     int
+	fault *c17Fault
+}
+
+func (c *c17FaultClient) hit(verb string) error {
+	k := c.k
+	c.k++
+	if c.fault != nil && c.fault.K == k {
+		if c.Store.Before != nil {
+			c.Store.Before(CallInfo{Verb: verb, GK: gkString(c17LockGK), Name: "lock"})
+		}
+		return c17ErrOf(c.fault.Class, "lock")
+	}
+	return nil
+}
+
+func (c *c17FaultClient) Get(ctx context.Context, key client.ObjectKey, obj client.Object, opts ...client.GetOption) error {
+	if err := c.hit("get"); err != nil {
+		return err
+	}
+	return c.Store.Get(ctx, key, obj, opts...)
+}
+
+func (c *c17FaultClient) Create(ctx context.Context, obj client.Object, opts ...client.CreateOption) error {
+	if err := c.hit("create"); err != nil {
+		return err
+	}
+	return c.Store.Create(ctx, obj, opts...)
+}
+
+func (c *c17FaultClient) Update(ctx context.Context, obj client.Object, opts ...client.UpdateOption) error {
+	if err := c.hit("update"); err != nil {
+		return err
+	}
+	return c.Store.Update(ctx, obj, opts...)
+}
+
+// c17ResMore is one later Resolve of the long-lived manager. Set: what another client stored in
+// the Lock between the previous Resolve and this one (nil: nothing).
+type c17ResMore struct {
+	Self c17Pkg    `json:"self"`
+	Set  *[]c17Pkg `json:"set"`
 }
 
 func (e *c17Env) points() []*[]c17Pkg {
@@ -106,12 +167,21 @@ type c17ResObs struct {
 	Lock      []c17Pkg `json:"lock"`
 }
 
+type c17ResObsAll struct {
+	c17ResObs
+	More []c17ResObs `json:"more"`
+}
+
 func c17ResErrKind(err error) string {
 	switch t := c17ErrText(err); {
 	case t == "":
 		return ""
+	case strings.Contains(t, "cannot get or create lock"):
+		return "getOrCreate:" + c17ErrClassOf(err)
 	case kerrors.IsConflict(err):
 		return "conflict"
+	case c17ErrClassOf(err) != "other":
+		return "api:" + c17ErrClassOf(err)
 	case strings.Contains(t, "cannot initialize dependency graph"):
 		return "initDag"
 	case strings.Contains(t, "missing dependencies:"):
@@ -135,9 +205,54 @@ func c17ResErrKind(err error) string {
 	}
 }
 
-func c17ResRun(s c17ResScn) (c17ResObs, []Mon, string) {
+func c17ResRun(s c17ResScn) (c17ResObsAll, []Mon, string) {
 	st := NewStore(c17Scheme)
-	st.Seed(&v1beta1.Lock{ObjectMeta: metav1.ObjectMeta{Name: "lock"}, Packages: c17LockPackages(s.Lock)})
+	if !s.Absent {
+		st.Seed(&v1beta1.Lock{ObjectMeta: metav1.ObjectMeta{Name: "lock"}, Packages: c17LockPackages(s.Lock)})
+	}
+	newDag := dag.NewMapDag
+	if s.Upg {
+		newDag = dag.NewUpgradingMapDag
+	}
+	// ONE manager for all the Resolve calls of the scenario, as in one process
+	fc := &c17FaultClient{Store: st, fault: s.Fault}
+	m := revision.NewPackageDependencyManager(fc, newDag, pkgv1.ProviderGroupVersionKind)
+	first, mons, cls := c17ResOne(m, st, s, c17InstallWriters(st, s))
+	fc.fault = nil
+	if s.Fault != nil {
+		cls = fmt.Sprintf("fault=%d:%s/%s", s.Fault.K, s.Fault.Class, cls)
+	}
+	if s.Absent {
+		cls = "absent/" + cls
+	}
+	all := c17ResObsAll{c17ResObs: first, More: []c17ResObs{}}
+	writes := 1000
+	for i, mr := range s.More {
+		if first.Err == "panic" {
+			break
+		}
+		if mr.Set != nil {
+			writes++
+			c17StoreLock(st, *mr.Set, writes)
+		}
+		cur := &v1beta1.Lock{}
+		_ = st.Get(context.Background(), types.NamespacedName{Name: "lock"}, cur)
+		none := "none"
+		o, mm, _ := c17ResOne(m, st, c17ResScn{Upg: s.Upg, Lock: c17LockPkgsOf(cur), Self: mr.Self}, &none)
+		all.More = append(all.More, o)
+		for _, x := range mm {
+			mons = append(mons, Mon{Sig: x.Sig, Why: fmt.Sprintf("Resolve %d of the same manager: %s", i+2, x.Why)})
+		}
+	}
+	if len(s.More) > 0 {
+		cls = fmt.Sprintf("seq=%d/%s", len(s.More)+1, cls)
+	}
+	return all, mons, cls
+}
+
+// c17ResOne: one Resolve of the manager `m` for the revision s.Self; s.Lock is what the Lock holds
+// when it starts, s.Env what the other writers do meanwhile.
+func c17ResOne(m *revision.PackageDependencyManager, st *Store, s c17ResScn, consumed *string) (c17ResObs, []Mon, string) {
 	meta := &pkgmetav1.Provider{}
 	for _, d := range s.Self.Deps {
 		meta.Spec.DependsOn = append(meta.Spec.DependsOn, pkgmetav1.Dependency{Provider: ptr.To(d.Pkg), Version: d.Con})
@@ -145,15 +260,9 @@ func c17ResRun(s c17ResScn) (c17ResObs, []Mon, string) {
 	pr := &pkgv1.ProviderRevision{ObjectMeta: metav1.ObjectMeta{Name: s.Self.Name}}
 	pr.Spec.Package = c17Image(s.Self.Source, s.Self.Version)
 	pr.Spec.DesiredState = pkgv1.PackageRevisionActive
-	newDag := dag.NewMapDag
-	if s.Upg {
-		newDag = dag.NewUpgradingMapDag
-	}
-	m := revision.NewPackageDependencyManager(st, newDag, pkgv1.ProviderGroupVersionKind)
 	var found, installed, invalid int
 	var err error
 	var mons []Mon
-	consumed := c17InstallWriters(st, s)
 	p := Guard(func() { found, installed, invalid, err = m.Resolve(context.Background(), meta, pr) })
 	st.Before = nil // the other writers act during Resolve only; what follows reads the final state
 	if p != "" {
@@ -226,6 +335,35 @@ func c17ResRun(s c17ResScn) (c17ResObs, []Mon, string) {
 			if _, ok := inLock[id]; !ok {
 				mons = append(mons, Mon{Sig: "C17:satisfied-with-missing-transitive", Why: "satisfied although " + id + " (reachable from the revision's dependencies) is not in the lock"})
 			}
+		}
+	}
+	// direct monitors of what Resolve leaves in the Lock
+	has := func(l []c17Pkg, f func(c17Pkg) bool) bool {
+		for _, p := range l {
+			if f(p) {
+				return true
+			}
+		}
+		return false
+	}
+	if err == nil && wf && !has(obs.Lock, func(p c17Pkg) bool { return p.Name == s.Self.Name && p.Source == s.Self.Source }) {
+		mons = append(mons, Mon{Sig: "C17:satisfied-without-being-recorded", Why: "satisfied although the Lock holds no entry " + s.Self.Name + " of " + s.Self.Source})
+	}
+	if s.Env == nil {
+		// without other writers: every other revision's entry stays, and (unless the DAG cannot
+		// be built) an entry with the revision's name is there afterwards
+		for _, q := range s.Lock {
+			if q.Name != s.Self.Name && !has(obs.Lock, func(p c17Pkg) bool { return c17EqualJSON(p, q) }) {
+				mons = append(mons, Mon{Sig: "C17:resolve-removed-foreign-entry", Why: "the entry " + q.Name + " (" + q.Source + ") of another revision is gone after Resolve of " + s.Self.Name})
+			}
+		}
+		// a revision that moved to another repository does not leave its old entry behind (other
+		// revisions' dependencies on the old source would count as present)
+		if s.Fault == nil && wf && obs.Err != "initDag" && has(obs.Lock, func(p c17Pkg) bool { return p.Name == s.Self.Name && !p.Typed && p.Source != s.Self.Source }) {
+			mons = append(mons, Mon{Sig: "C17:moved-revision-stale-entry-kept", Why: "after Resolve the Lock still holds an entry " + s.Self.Name + " under a source other than " + s.Self.Source})
+		}
+		if s.Fault == nil && obs.Err != "initDag" && !has(obs.Lock, func(p c17Pkg) bool { return p.Name == s.Self.Name }) {
+			mons = append(mons, Mon{Sig: "C17:resolve-not-recorded", Why: "no entry named " + s.Self.Name + " in the Lock after Resolve returned " + obs.Err})
 		}
 	}
 	cls := "err=" + obs.Err
@@ -363,6 +501,15 @@ func c17ResStrings(s c17ResScn) []string {
 	for _, d := range s.Self.Deps {
 		strs = append(strs, d.Con)
 	}
+	for _, mr := range s.More {
+		strs = append(strs, mr.Self.Version)
+		for _, d := range mr.Self.Deps {
+			strs = append(strs, d.Con)
+		}
+		if mr.Set != nil {
+			strs = append(strs, c17DagStrings(*mr.Set)...)
+		}
+	}
 	return strs
 }
 
@@ -389,6 +536,27 @@ func c17ResEmit(c *Ctx, s c17ResScn, prefix string) {
 		for i := range *w {
 			if (*w)[i].Deps == nil {
 				(*w)[i].Deps = []c17Dep{}
+			}
+		}
+	}
+	if s.Absent {
+		s.Lock = []c17Pkg{}
+	}
+	if s.Absent || s.Fault != nil {
+		s.More = nil
+	}
+	for i := range s.More {
+		if s.More[i].Self.Deps == nil {
+			s.More[i].Self.Deps = []c17Dep{}
+		}
+		if w := s.More[i].Set; w != nil {
+			if *w == nil {
+				*w = []c17Pkg{}
+			}
+			for j := range *w {
+				if (*w)[j].Deps == nil {
+					(*w)[j].Deps = []c17Dep{}
+				}
 			}
 		}
 	}
@@ -472,7 +640,14 @@ func c17ResolveRandom(c *Ctx) {
 			case 0: // another revision name for a source that is in the lock (outside LockWF)
 				s.Self.Name += "-new"
 			default: // same revision name, moved to another repository
-				s.Self.Source = "xpkg.io/moved/" + fmt.Sprintf("p%d", i)
+				switch r.Intn(4) {
+				case 0: // ... whose name is a prefix of the old one
+					s.Self.Source = s.Self.Source[:len(s.Self.Source)-1]
+				case 1: // ... whose name extends the old one
+					s.Self.Source += "x"
+				default:
+					s.Self.Source = "xpkg.io/moved/" + fmt.Sprintf("p%d", i)
+				}
 			}
 		}
 	}
@@ -524,7 +699,72 @@ func c17ResolveRandom(c *Ctx) {
 		dup.Name += "x"
 		s.Lock = append(s.Lock, dup)
 	}
+	c17NameTwist(r, &s)
+	c17ResMoreRandom(r, &s)
+	c17ResFaultRandom(r, &s)
 	c17ResEmit(c, s, "rnd")
+}
+
+// c17ResFaultRandom: one failing call (every error class, every call index Resolve can reach)
+// or no Lock object at all.
+func c17ResFaultRandom(r *Rng, s *c17ResScn) {
+	switch x := r.Intn(16); {
+	case x < 2:
+		s.Fault = c17PickFault(r)
+	case x == 2:
+		s.Absent, s.Lock, s.Env = true, nil, nil
+		if r.Bool() {
+			s.Fault = c17PickFault(r)
+		}
+	}
+}
+
+// c17PickFault: early calls and the classes the code branches on (NotFound, Conflict,
+// AlreadyExists) more often than the rest.
+func c17PickFault(r *Rng) *c17Fault {
+	f := &c17Fault{K: Pick(r, []int{0, 0, 0, 1, 1, 1, 2, 2, 3, 4}), Class: Pick(r, c17ErrClasses)}
+	if r.Chance(2, 5) {
+		f.Class = Pick(r, []string{"notFound", "conflict", "alreadyExists"})
+	}
+	return f
+}
+
+// c17ResMoreRandom: further Resolve calls of the same manager: the same revision again (after
+// another revision removed itself / moved a dependency / nothing), or other revisions.
+func c17ResMoreRandom(r *Rng, s *c17ResScn) {
+	if !r.Chance(2, 5) {
+		return
+	}
+	cur := c17CopyPkgs(s.Lock)
+	record := func(self c17Pkg) { // what the Lock looks like if that Resolve recorded the revision
+		for _, p := range cur {
+			if p.Name == self.Name {
+				return
+			}
+		}
+		cur = append(cur, self)
+	}
+	record(s.Self)
+	for i, n := 0, r.Range(1, 3); i < n; i++ {
+		mr := c17ResMore{Self: s.Self}
+		if !r.Chance(1, 2) {
+			j := r.Intn(len(c17Repos))
+			mr.Self = c17Pkg{Name: fmt.Sprintf("q%d", j), Source: "xpkg.io/q/" + fmt.Sprintf("r%d", j), Version: c17GenTagVersion(r)}
+			for _, p := range cur {
+				if r.Chance(1, 3) && p.Source != mr.Self.Source {
+					mr.Self.Deps = append(mr.Self.Deps, c17Dep{Pkg: p.Source, Con: c17GenEasyConstraint(r)})
+				}
+			}
+		}
+		mr.Self.Deps = append([]c17Dep{}, mr.Self.Deps...)
+		if r.Chance(1, 2) {
+			w, _ := c17OtherWrite(r, cur, mr.Self, "")
+			mr.Set = &w
+			cur = c17CopyPkgs(w)
+		}
+		record(mr.Self)
+		s.More = append(s.More, mr)
+	}
 }
 
 // ---------------------------------------------------------------- lock Reconciler
@@ -921,4 +1161,46 @@ func c17ReconcileRandom(c *Ctx) {
 	}
 	sort.SliceStable(s.Installed, func(i, j int) bool { return s.Installed[i].Source < s.Installed[j].Source })
 	c17RecEmit(c, s, "rnd")
+}
+
+// c17NameTwist adds identity near-misses: another revision whose name / source extends (or is a
+// prefix of) the revision's, and dependencies on identifiers that extend / are a prefix of a
+// lock package's source (absent, so they must be reported missing).
+func c17NameTwist(r *Rng, s *c17ResScn) {
+	if !r.Chance(1, 4) {
+		return
+	}
+	names, sources := map[string]bool{s.Self.Name: true}, map[string]bool{s.Self.Source: true}
+	for _, p := range s.Lock {
+		names[p.Name], sources[p.Source] = true, true
+	}
+	vary := func(x string) string {
+		switch r.Intn(4) {
+		case 0:
+			return x + "x"
+		case 1:
+			return x + "-2"
+		case 2:
+			return x + "/"
+		default:
+			if len(x) > 1 {
+				return x[:len(x)-1]
+			}
+			return x + "0"
+		}
+	}
+	if r.Bool() {
+		z := c17Pkg{Name: vary(s.Self.Name), Source: vary(s.Self.Source), Version: fmt.Sprintf("%d.%d.%d", r.Intn(3), r.Intn(3), r.Intn(4))}
+		if !names[z.Name] && !sources[z.Source] && z.Name != "" {
+			at := r.Intn(len(s.Lock) + 1)
+			s.Lock = append(append(append([]c17Pkg{}, s.Lock[:at]...), z), s.Lock[at:]...)
+			names[z.Name], sources[z.Source] = true, true
+		}
+	}
+	if len(s.Lock) > 0 && r.Bool() {
+		id := vary(Pick(r, s.Lock).Source)
+		if !sources[id] {
+			s.Self.Deps = append(s.Self.Deps, c17Dep{Pkg: id, Con: c17GenEasyConstraint(r)})
+		}
+	}
 }
